@@ -20,7 +20,11 @@ THEOREMS = ["edge_shared_by_two", "split_inv", "swap_inv", "collapse_inv", "rena
             "merge_guard_iff", "canBeMerged_sound", "canBeMerged_defined", "sortspec_check_sound", "sortNat_sorted", "merge_executed_refines",
             "split_vmc", "swap_vmc", "collapse_vmc", "rename_vmc", "step_vmc", "reach_vertex_manifold",
             "vertex_manifold_iff_link_connected", "concrete_split_vmc", "concrete_swap_vmc", "concrete_merge_vmc",
-            "merge_executed_invariants", "merge_defined", "merge_checked_defined", "delete_face_defined"]
+            "merge_executed_invariants", "merge_defined", "merge_checked_defined", "delete_face_defined",
+            "reach_upTo", "reachUpTo_inv", "reachUpTo_vertex_manifold", "reachUpTo_chi", "hist_reach",
+            "refine_pass_preserves", "refine_pass_history", "refine_pass_reach", "refine_pass_chi",
+            "check_set_initial", "check_set_entry", "split_step_preserves", "merge_step_preserves",
+            "swap_step_preserves", "refine_pass_live", "cell_ok_check_sound", "cell_ok_nonvacuous"]
 GEN = ["RemeshConsts"]
 
 
